@@ -52,7 +52,7 @@ func init() {
 		spec := &mc.Spec{
 			Level: "model_checking",
 			Rule: "pinned-schedule enumeration on the implementation (shares the C10 model's gates): container — cancel before the call, inside the callback, with the host held at each named point of Execve (send/recv of execve, pid, ok; before the select), with the result held in flight, with the child ended but unreported, × program {never ends, exits 7} × sync {before, after} exec; " +
-				"tracer — cancel before Trace, with the child held before setsid, inside the callback, at every tracer step (each Debug call of the tracer loop and each handler call for the program's traced pause / exit_group, the handler returning at once or only after the kill has landed, answering allow, soft-ban, or — like a path policy — kill unless the name of a traced access(2) reads as expected); namespace runner — before Run, inside the callback, while the program runs; Destroy — while Execve / Open / Ping is in flight with a pump or the caller held at each host point, or with the container's reply withheld. " +
+				"tracer — cancel before Trace, with the child held before setsid, inside the callback, at every tracer step (each Debug call of the tracer loop and each handler call for the program's traced pause / exit_group, the handler returning at once or only after the kill has landed, answering allow, soft-ban, or — like a path policy — kill unless the name of a traced access(2) reads as expected); namespace runner — before Run, inside the callback, while the program runs; container again — a run started right after a sync-after-exec launch was refused while one of its descendants is frozen (cgroup freezer, thawed 0.5 s later), cancelled in its callback or while running; Destroy — while Execve / Open / Ping is in flight with a pump or the caller held at each host point, or with the container's reply withheld. " +
 				"Oracle: the call returns within the horizon with Time Limit Exceeded or the program's genuine verdict, never Runner Error / Disallowed Syscall; nothing of the run stays alive; after Destroy the in-flight call has returned and the init is gone. distinct = (runner, instant, program, observation)",
 			Bound:       map[string]any{"not_pinned": "instants strictly between two consecutive gates; the namespace runner's window between program exit and Run returning"},
 			Assumptions: []string{"gate granularity; the horizon (10 s) is three orders of magnitude above normal latency"},
@@ -63,7 +63,9 @@ func init() {
 		spec.Init = func() error { devnull(); return nil }
 		spec.Fini = cleanupTmp
 		spec.Body = func(x *mc.X) {
-			switch x.Pick("family", "container-cancel", "tracer-cancel", "unshare-cancel", "destroy") {
+			switch x.Pick("family", "container-cancel", "tracer-cancel", "unshare-cancel", "destroy", "container-cancel-after-a-refusal-with-a-slow-descendant") {
+			case "container-cancel-after-a-refusal-with-a-slow-descendant":
+				c11slowDescendant(x)
 			case "container-cancel":
 				c11container(x)
 			case "tracer-cancel":
